@@ -106,6 +106,10 @@ def tier_a_jobs(impl, scripts, aspects, workers_default=15, no_layout=False):
                 chk = set() if m.group(2) == '-' else set(int(x) for x in m.group(2).split(','))
                 jobs.append(dict(reqs=reqs, chk=chk, ran=False, xodd='xodd=1' in r))
                 dirty[len(jobs) - 1] = set(); touched[len(jobs) - 1] = set()
+            if op == 'jobedit':
+                m = re.search(r'req=(\S*) chk=(\S+)', r)
+                if m:
+                    jobs[int(t[1])]['reqs'] = [(int(x.split(':')[0]), int(x.split(':')[1]) & 1 == 1, int(x.split(':')[1]) & 2 == 2) for x in m.group(1).split(',') if x]
             # ---- events that make entities dirty / chunks touched (C07, C11) ----
             def mark(h, cids, but=None):
                 for j, jb in enumerate(jobs):
@@ -187,6 +191,13 @@ def tier_a_jobs(impl, scripts, aspects, workers_default=15, no_layout=False):
                         fail = ('visits', 'entity indexes are %s, expected 0..%d each once' % (sorted(v[1] for v in visits)[:12], N - 1))
                     else:
                         for task, idx, h, vals in visits:
+                            if no_layout and not required and h not in hv:
+                                # through the C interface an entity without components cannot be told from a dead one (no validity
+                                # query): a job that requires nothing may visit it; it must then be handed no component at all
+                                if any(v != 'null' for v in vals):
+                                    fail = ('visits', 'entity %s has no component, but one was handed over: %s' % (h, vals))
+                                    break
+                                continue
                             if h not in matching:
                                 fail = ('visits', 'visited %s, which is not a live entity with all required components' % h); break
                             if jb.get('shared'):
@@ -201,7 +212,7 @@ def tier_a_jobs(impl, scripts, aspects, workers_default=15, no_layout=False):
                                     fail = ('visits', 'entity %s: component %d handed over with value %s, its own value is %s' % (h, c, v, hv[h][c])); break
                             if fail:
                                 break
-                    if not fail and not jb['chk'] and set(hs) != matching:
+                    if not fail and not jb['chk'] and (set(hs) != matching if not (no_layout and not required) else not (matching <= set(hs))):
                         fail = ('visits', 'job without version filter visited %d entities, %d have the required components (missing %s)' %
                                 (N, len(matching), sorted(matching - set(hs))[:3]))
                     if not fail and N and not no_layout:
@@ -318,7 +329,7 @@ def pal_cids(lines, blocks, pal):
             elif t[0] == 'dep':
                 for x in t[1:]:
                     see(int(x))
-            elif t[0] == 'mkjob':
+            elif t[0] in ('mkjob', 'jobedit'):
                 for x in t[2:]:
                     if x != 'c':
                         see(int(x.split(':')[0]))
